@@ -426,7 +426,9 @@ func (r *reassemblyQueue) pushUnorderedIData(chunk *chunkPayloadData) (bool, err
 }
 
 func (r *reassemblyQueue) pushOrderedIData(chunk *chunkPayloadData) (bool, error) {
-	if sna32LT(chunk.messageIdentifier, r.nextMID) {
+	// A MID exactly half the number space ahead has no order against the queued ones
+	// (like the SSN case in isBehindNextSSN it counts as not placeable).
+	if sna32LT(chunk.messageIdentifier, r.nextMID) || chunk.messageIdentifier-r.nextMID == 1<<31 {
 		return false, nil
 	}
 
